@@ -132,6 +132,19 @@ func solveOne(c *Ctx, o *Obligation, dir string, timeoutMs int, seed int) *Verdi
 	start := time.Now()
 	definite := func(s string) bool { return s == "unsat" || s == "sat" }
 	if !o.WantSat {
+		// the goal restates a hypothesis: only its guards have to follow
+		if it, ok := c.smtIdent(o); ok {
+			idfile := filepath.Join(dir, sanitizeFile(o.Name)+".ident.smt2")
+			if err := os.WriteFile(idfile, []byte(it), 0o644); err == nil {
+				if name, out, ok := raceUnsat(idfile, []solverCfg{solvers[0], z3NewArith6}, 5000, seed, &v.Attempts, "ident"); ok {
+					v.Status, v.Solver, v.Output = "unsat", name+"(ident)", out
+					v.Millis = time.Since(start).Milliseconds()
+					return v
+				}
+			}
+		}
+	}
+	if !o.WantSat {
 		// light query first: without quantified hypotheses
 		if lt := c.smtText(o, true); len(lt) != len(text) {
 			lfile := filepath.Join(dir, sanitizeFile(o.Name)+".light.smt2")
